@@ -123,6 +123,16 @@ func c04Mutants(rng *rand.Rand, w *core.World, orig []byte, other []byte) []muta
 		t.Fee.Price.Value = *balance.NewAmountFromBigInt(new(big.Int).Add(t.Fee.Price.Value.BigInt(), big.NewInt(1+rng.Int63n(1000))))
 		return true
 	})
+	add("fee-currency", func(t *action.SignedTx) bool {
+		// the currency the fee is named in: another registered one, another spelling, none
+		for _, c := range []string{"VT", "ETH", "BTC", "olt", "", "XYZ"}[rng.Intn(6):] {
+			if c != t.Fee.Price.Currency {
+				t.Fee.Price.Currency = c
+				return true
+			}
+		}
+		return false
+	})
 	add("fee-gas", func(t *action.SignedTx) bool { t.Fee.Gas += 1 + rng.Int63n(100000); return true })
 	add("fee-gas-lower", func(t *action.SignedTx) bool {
 		if t.Fee.Gas < 2 {
@@ -564,7 +574,7 @@ func init() {
 	Register(&ClusterProp{
 		Id: "C04",
 		RuleText: "each run: honest blocks (swarm subset of all generators) build state; every 2-4 blocks the generators produce fresh transactions for the current state, those that pass CheckTx (original valid here) are withheld and " +
-			"single-field mutants of them are derived: payload leaf / payload byte, fee price, fee gas up/down, memo, type, signer key replaced, signed by a stranger, key algorithm, signature bit flip / truncate / empty / taken from another message, " +
+			"single-field mutants of them are derived: payload leaf / payload byte, fee price, fee currency, fee gas up/down, memo, type, signer key replaced, signed by a stranger, key algorithm, signature bit flip / truncate / empty / taken from another message, " +
 			"signatures dropped / one dropped / duplicated / reordered / extra. Each mutant (kept only if the re-serialised signed content or the signature list differs from the original) goes through CheckTx on the node and is then delivered in a block of mutants only (byzantine proposer). " +
 			"Oracles: CheckTx code != 0; DeliverTx code != 0; the mutant block's app hash equals that of a twin that received the same BeginBlock and no transactions. Non-trivial: >=5 mutants delivered; distinct = distinct fingerprints; `inputs` = mutants evaluated.",
 		MakeSetup: func(rng *rand.Rand, tier string, seed uint64) *Setup {
